@@ -110,6 +110,30 @@ def gen(rng, ntempl=None, allow_anon=True, branchpoints=True, xta_common=False):
     return M
 
 
+def oldify(M, rng):
+    """restrict a model generated with xta_common=True to what the old (3.x) syntax can say, and spell its labels the old way: guards and
+    invariants as comma-separated conjunctions, updates with `:=`; no parameters, selects, probabilities, rates, uncontrollable edges"""
+    M.old = True
+    M.processes = []
+    M.priorities = False
+    for T in M.templates:
+        T['params'] = []
+        for l in T['locs']:
+            l['rate'] = None
+            if l['inv'] is not None and rng.random() < 0.6:
+                M.text[('inv', l['inv'])] = 'x <= %d, x >= 0' % l['inv']
+        for e in T['edges']:
+            e['control'] = True
+            e['labels'] = [(k, m) for k, m in e['labels'] if k in ('guard', 'sync', 'update')]
+            for k, m in e['labels']:
+                if k == 'guard' and rng.random() < 0.7:
+                    M.text[(k, m)] = 'g0 == %d, g1 >= 0' % m if rng.random() < 0.6 else 'g0 == %d, g1 >= 0, g2 <= 9' % m
+                if k == 'update':
+                    M.text[(k, m)] = 'g1 := %d' % m
+    M.system = [T['name'] for T in M.templates] or M.system
+    return M
+
+
 def label_text(kind, m):
     return {'inv': 'x <= %d' % m, 'rate': '%d' % m, 'select': 's%d : int[0,1]' % m, 'guard': 'g0 == %d' % m, 'sync': 'c%d!' % m, 'update': 'g1 = %d' % m, 'prob': '%d' % m}[kind]
 
